@@ -72,7 +72,10 @@ impl Formatter for EmptyLineRemover {
             .is_none();
 
         if is_not_next_line_empty && is_not_prev_line_empty {
-            (byte_pos, byte_pos + 1)
+            // On the first line of the file nothing else takes the indentation of the emptied line away
+            // (IndentRemover needs a line break in front of it): it goes together with the line break.
+            let start = if line_start == 0 { 0 } else { byte_pos };
+            (start, byte_pos + 1)
         } else {
             (byte_pos, byte_pos)
         }
